@@ -318,7 +318,7 @@ specialise(
     "C20",
     "c.misspellings",
     c20_misspell,
-    {"n": [1, 2, 3]},
+    {"n": [1, 2]},
     timeout=600,
     kernel=(K[6], K[7]),
     shims=(),
@@ -330,13 +330,26 @@ specialise(
     "C20",
     "c.misspellings",
     c20_misspell,
-    {"n": [4]},
+    {"n": [3], "u1": [False], "u2": [False]},
+    timeout=600,
+    kernel=(K[6], K[7]),
+    shims=(),
+    symbolic="candidate sheet name of 3 symbolic letters (distance 0..3 from 'osm': the threshold boundary), symbolic case of the first letter, underscore prefix (boolean)",
+    bounds="key 'osm'; n = 3",
+    weight=300,
+)
+specialise(
+    "C20",
+    "c.misspellings",
+    c20_misspell,
+    {"n": [3, 4], "u1": [True]},
+    reach_if=lambda fx: False,
     tiers=("thorough",),
     timeout=3000,
     kernel=(K[6], K[7]),
     shims=(),
-    symbolic="candidate sheet name of 4 symbolic letters with symbolic letter case on the first three, underscore prefix (boolean)",
-    bounds="key 'osm'; n = 4",
+    symbolic="candidate sheet name of 3-4 symbolic letters with symbolic letter case on the first and third, second upper case, underscore prefix (boolean)",
+    bounds="key 'osm'; n = 3, 4",
     weight=1500,
 )
 
